@@ -116,6 +116,7 @@ type Compiler struct {
 	stmtDepth     int
 	lastPos       token.Pos
 	declStack     []*Sym
+	MidAbort      string // set when the subset was exceeded after operations had been issued
 }
 
 // RefTag records a package-qualified reference the front end built: for C09.
@@ -355,6 +356,9 @@ func (c *Compiler) ensure(s *Sym) {
 			if r := recover(); r != nil {
 				if u, ok := r.(Unsupported); ok {
 					s.Failed = u
+					// the static analysis should have excluded this unit: the builder may
+					// now be in the middle of a construct
+					c.MidAbort = s.Name + ": " + u.What
 					return
 				}
 				panic(r)
